@@ -164,11 +164,17 @@ func (ms *readWriteSegment) Append(offset int64, data []byte) error {
 	ms.currentFileOffset += recordSize
 	ms.lastOffset = offset
 	ms.writingIdx = binary.BigEndian.AppendUint32(ms.writingIdx, fOffset)
+	ms.verifEventLocked("append")
 	return nil
 }
 
 func (ms *readWriteSegment) Flush() error {
-	return ms.txnMappedFile.Flush()
+	mark := ms.verifFlushMark()
+	err := ms.txnMappedFile.Flush()
+	if err == nil {
+		ms.verifEventFlushed(mark)
+	}
+	return err
 }
 
 func (*readWriteSegment) OpenTimestamp() time.Time {
@@ -183,6 +189,7 @@ func (ms *readWriteSegment) Close() error {
 		return nil
 	}
 	ms.closed = true
+	ms.verifEventLocked("close")
 
 	err := multierr.Combine(
 		ms.txnMappedFile.Unmap(),
